@@ -60,18 +60,8 @@ func optList(o TestOpts) []z.TestOption {
 	}
 	if o.MsgFunc != nil {
 		txt := *o.MsgFunc
-		reads, hasPath := o.MsgFuncReads, o.Path != nil
-		all[1] = z.MessageFunc(func(e *z.ZogIssue, c z.Ctx) {
-			if !reads {
-				e.SetMessage(txt)
-				return
-			}
-			var p *string
-			if !hasPath {
-				p = &e.Path
-			}
-			e.SetMessage(ComposeMsg(txt, e.Code, e.Dtype, e.Params, p))
-		})
+		_ = txt
+		all[1] = z.MessageFunc(msgFuncOf(o))
 	}
 	if o.Code != nil {
 		all[2] = z.IssueCode(*o.Code)
@@ -500,8 +490,7 @@ func reusable(fn z.BoolTFunc, t *Test) z.Test {
 		zt.IssueFmtFunc = func(e *z.ZogIssue, c z.Ctx) { e.SetMessage(msg) }
 	}
 	if o.MsgFunc != nil {
-		msg := *o.MsgFunc
-		zt.IssueFmtFunc = func(e *z.ZogIssue, c z.Ctx) { e.SetMessage(msg) }
+		zt.IssueFmtFunc = msgFuncOf(o)
 	}
 	if o.Code != nil {
 		zt.IssueCode = *o.Code
@@ -513,4 +502,20 @@ func reusable(fn z.BoolTFunc, t *Test) z.Test {
 		zt.Params = o.Params
 	}
 	return zt
+}
+
+func msgFuncOf(o TestOpts) z.IssueFmtFunc {
+	txt := *o.MsgFunc
+	reads, hasPath := o.MsgFuncReads, o.Path != nil
+	return func(e *z.ZogIssue, c z.Ctx) {
+		if !reads {
+			e.SetMessage(txt)
+			return
+		}
+		var p *string
+		if !hasPath {
+			p = &e.Path
+		}
+		e.SetMessage(ComposeMsg(txt, e.Code, e.Dtype, e.Params, p))
+	}
 }
